@@ -91,10 +91,19 @@ func ZZ_C07_concurrent() {
 	// 0 Do on a cold schema, 1 shared prepared plan, 2 shared cold plan cache,
 	// 3 shared plan cache already holding the plan of request 1 (concurrent hits)
 	scenario := zzChoice("scenario", 4)
-	q1 := zzC07Queries[zzChoice("q1", len(zzC07Queries))]
+	if only := zzParam("SCEN", -1); only >= 0 {
+		zzAssume(scenario == only)
+	}
+	// QSET=1 restricts the requests to two representative ones (nested abstract
+	// fields; variable-driven directives) so that a deeper schedule bound stays tractable
+	pool := zzC07Queries
+	if zzParam("QSET", 0) == 1 {
+		pool = []string{zzC07Queries[1], zzC07Queries[4]}
+	}
+	q1 := pool[zzChoice("q1", len(pool))]
 	q2 := q1
 	if scenario != 1 { // the shared plan is planned for q1 and executed twice
-		q2 = zzC07Queries[zzChoice("q2", len(zzC07Queries))]
+		q2 = pool[zzChoice("q2", len(pool))]
 	}
 	// sequential baselines on a separate schema (the shared one must stay cold)
 	bs := zzC07Schema()
@@ -155,6 +164,12 @@ func ZZ_C07_concurrent() {
 	zzAssert(zzSameResult(results[1], want2), "concurrent response differs from the sequential one (request 2)")
 	zzCover("end")
 }
+
+// ZZ_C07_deep: the same harness under a deeper schedule bound on the restricted request set.
+func ZZ_C07_deep() { ZZ_C07_concurrent() }
+
+// ZZ_C07_deep_cache: likewise for the warm plan cache.
+func ZZ_C07_deep_cache() { ZZ_C07_concurrent() }
 
 // ZZ_C07_sequential_plan: control: one shared plan executed twice, one after the other.
 func ZZ_C07_sequential_plan() {
